@@ -2,7 +2,7 @@ SPECIFICATION Spec
 CONSTANTS
   TMin = 0
   TMax = 15
-  Pts <- PtsU4
+  Pts <- PtsU4s
   MaxLen = 2
   FixTrunc = TRUE
   FixGuard = TRUE
